@@ -13,7 +13,7 @@ ID = 'C15'
 LEVEL = 'exploration'
 RULE = ('round trip: 1-3 cookies (names over the legal cookie-name alphabet; plain values = non-empty text up to U+00FF incl. separators, quotes, '
         'backslash, controls, Latin-1; signed values = nested picklable data, secrets = non-empty text or bytes) set through response.set_cookie inside a '
-        'handler, the emitted Set-Cookie header values are handed back verbatim by a harness "browser" as one Cookie header, and read with '
+        'handler (on the application response or on a returned / raised response object, under statuses 200-500 incl. 204 and 304), the emitted Set-Cookie header values are handed back verbatim by a harness "browser" as one Cookie header, and read with '
         'request.get_cookie / request.cookies. Tampering, per signed cookie value S = "!sig?msg": every single-byte substitution position x sampled '
         'replacement bytes (all 64 base64 characters at the last significant character of sig and msg), every deletion, every truncation length, '
         'insertion of non-alphabet / padding / whitespace bytes at every position, signature swapped with another cookie, other secret, other name, the value re-presented under a shorter / longer name with the moved characters spliced into payload or signature, signatures made with related keys (empty, NUL runs, prefixes / suffixes / single bytes / case variants of the secret), '
@@ -95,25 +95,34 @@ def rt_case(draw):
         else:
             wide = draw(st.integers(0, 9)) == 0
             cookies.append({'name': n, 'secret': None, 'value': draw(PLAIN_WIDE if wide else PLAIN)})
-    return {'cookies': cookies}
+    return {'cookies': cookies, 'status': draw(st.sampled_from([None, None, None, 201, 204, 304, 304, 404, 500])), 'via': draw(st.sampled_from(['response', 'response', 'returned', 'raised'])),
+            'prime': draw(st.sampled_from([None, None, 'zz=1', names[0] + '=stale', names[0] + '="!bm9wZQ==?bm9wZQ=="']))}
 
 
 # ----------------------------------------------------------------- harness browser
-def set_and_collect(cookies):
-    """Serve one request whose handler sets the cookies; return {name: emitted 'name=value' string}."""
+def set_and_collect(cookies, status=None, via='response'):
+    """Serve one request whose handler sets the cookies (on the application's response, or on a response object it returns / raises,
+    under any status); return {name: emitted 'name=value' string}."""
     import ombott
     app = ombott.Ombott()
 
     def h():
+        target = app.response if via == 'response' else ombott.HTTPResponse('body', status or 200)
         for c in cookies:
             if c['secret'] is not None:
-                app.response.set_cookie(c['name'], from_plain(c['data']), secret=c['secret'])
+                target.set_cookie(c['name'], from_plain(c['data']), secret=c['secret'])
             else:
-                app.response.set_cookie(c['name'], c['value'])
-        return 'ok'
+                target.set_cookie(c['name'], c['value'])
+        if via == 'response':
+            if status:
+                app.response.status = status
+            return 'ok'
+        if via == 'raised':
+            raise target
+        return target
     app.route('/set', callback=h)
     r = call_app(app, make_environ('GET', '/set'))
-    if r.escaped is not None or r.code != 200:
+    if r.escaped is not None or r.code != (status or 200):
         raise CheckFailure(f'setting cookies {cookies!r} failed: {r.status!r} {r.errors[-600:]} {fmt_exc(r.escaped) if r.escaped else ""}')
     out = {}
     for v in r.header_all('Set-Cookie'):
@@ -122,10 +131,20 @@ def set_and_collect(cookies):
     return out
 
 
-def read_back(cookie_header, reads):
-    """reads = [(name, secret)] -> [(jar value, get_cookie result)] through a request object."""
+def read_back(cookie_header, reads, prime=None, on_primed=None):
+    """reads = [(name, secret)] -> [(jar value, get_cookie result)] through a request object.
+    prime: the request object first carries (and is asked about) another Cookie header, which is then replaced through request[...]."""
     import ombott
-    rq = ombott.Request(make_environ('GET', '/get', headers={'Cookie': cookie_header}))
+    if prime is None:
+        rq = ombott.Request(make_environ('GET', '/get', headers={'Cookie': cookie_header}))
+    else:
+        rq = ombott.Request(make_environ('GET', '/get', headers={'Cookie': prime}))
+        _ = rq.cookies
+        for n, s in reads:
+            rq.get_cookie(n, SENTINEL, secret=s) if s is not None else rq.get_cookie(n, SENTINEL)
+        rq['HTTP_COOKIE'] = cookie_header
+        if on_primed:
+            on_primed()
     jar = rq.cookies
     return [(jar.get(n), rq.get_cookie(n, SENTINEL, secret=s) if s is not None else rq.get_cookie(n, SENTINEL)) for n, s in reads]
 
@@ -143,7 +162,7 @@ def check_roundtrip(ctx, case):
         cookies = [c for c in cookies if c not in wide]
         if not cookies:
             return
-    emitted = set_and_collect(cookies)
+    emitted = set_and_collect(cookies, case.get('status'), case.get('via') or 'response')
     if set(emitted) != {c['name'] for c in cookies}:
         raise CheckFailure(f'Set-Cookie headers {emitted!r} do not cover the cookies set {[c["name"] for c in cookies]!r}')
     header = '; '.join(emitted[c['name']] for c in cookies)
@@ -151,7 +170,11 @@ def check_roundtrip(ctx, case):
         header.encode('latin1')
     except UnicodeError:
         raise CheckFailure(f'emitted cookie is not Latin-1: {header!r}')
-    got = read_back(header, [(c['name'], c['secret']) for c in cookies])
+    got = read_back(header, [(c['name'], c['secret']) for c in cookies], prime=case.get('prime'))
+    if case.get('status'):
+        ctx.count('cookie_set_under_status_%s' % case['status'])
+    if case.get('prime'):
+        ctx.count('cookie_header_replaced_on_a_request_already_asked')
     nontriv = False
     for c, (jar, val) in zip(cookies, got):
         if c['secret'] is None:
@@ -355,7 +378,9 @@ def check_tamper(ctx, case, full=False):
         ctx.evals += 1
         with LoadsSpy() as spy:
             try:
-                (jar, val), = read_back(rname + '=' + quote_cookie_value(T), [(rname, secret)])
+                # every third variant is presented to a request object that has just read the GENUINE cookie (the header is then replaced through request[...])
+                prime = (name + '=' + quote_cookie_value(S)) if (len(seen) % 3 == 0) else None
+                (jar, val), = read_back(rname + '=' + quote_cookie_value(T), [(rname, secret)], prime=prime, on_primed=lambda: setattr(spy, 'calls', 0))
             except Exception as e:
                 raise CheckFailure(f'reading a tampered cookie raised ({kind}): {T!r} under the name {rname!r}: {fmt_exc(e)}')
         if rname != name:
@@ -555,6 +580,13 @@ def run(ctx):
         ctx.count('corpus')
     if ctx.shard == 0:
         ctx.guarded(lambda c, _: witness_k15(c), {'witness': 'K15'})
+        # a plain and a signed cookie under every status / way of answering, and on a request object that was asked before its Cookie header was replaced
+        for status in (None, 200, 201, 204, 206, 301, 304, 400, 404, 500):
+            for via in ('response', 'returned', 'raised'):
+                for prime in (None, 'p=old; s="!bm9wZQ==?bm9wZQ=="'):
+                    ctx.guarded(check_roundtrip, {'cookies': [{'name': 'p', 'secret': None, 'value': 'plain v'}, {'name': 's', 'secret': 'k', 'data': ['u', 1]}],
+                                                  'status': status, 'via': via, 'prime': prime})
+        ctx.count('status_grid')
         # exhaustive: every 1- and (sampled) 2-character Latin-1 plain value
         for a in range(256):
             ctx.guarded(check_roundtrip, {'cookies': [{'name': 'p', 'secret': None, 'value': chr(a)}]})
